@@ -519,3 +519,8 @@ class C07(Check):
         return dict(input=data['input'], content_type=fl.content_type_for(i['boundary'], i['quote']), body=repr(body),
                     status=res['status'], outcomes=res['outs'], expected=expected_views(i['fields']),
                     oracle=self._oracle(rig, i))
+
+
+# the upload object and the file proxies (FileUpload, BytesIOProxy): an extra correspondence stream and oracle
+from harness import uploadlib as _upload  # noqa: E402
+_upload.install(C07)
